@@ -83,6 +83,14 @@ impl<'a> Printer<'a> {
         (i, i)
     }
 
+    /// An integer literal without its type suffix.
+    fn bare_lit(&mut self, e: &Expr) -> Span {
+        let ExprKind::Lit(Val::Int(v)) = &e.kind else { panic!("harness: bare_lit on a non-literal") };
+        let i = self.emit(&v.to_string());
+        e.span.set((i, i));
+        (i, i)
+    }
+
     /// print as an operand: parenthesised unless atomic
     fn operand(&mut self, e: &Expr) -> Span {
         if is_atom(e) {
@@ -200,9 +208,18 @@ impl<'a> Printer<'a> {
                 (i, s.1)
             }
             ExprKind::Bin(op, a, b) => {
-                let sa = self.bin_operand(a, *op, true);
+                // An integer literal that is a direct operand next to a non-literal operand gets its
+                // type from that operand, so its suffix is redundant; it is dropped in a third of the
+                // cases (not for the left operand of a shift, whose type comes from the context, not
+                // for && / ||, and not for negative factors, see known finding KF-C03-1).
+                let is_int_lit = |e: &Expr| matches!(e.kind, ExprKind::Lit(Val::Int(_)));
+                let neg_factor = |e: &Expr| *op == crate::ints::BinOp::Mul && matches!(e.kind, ExprKind::Lit(Val::Int(v)) if v < 0);
+                let logical = matches!(op, crate::ints::BinOp::AndAnd | crate::ints::BinOp::OrOr);
+                let bare_a = is_int_lit(a) && !is_int_lit(b) && !logical && !op.is_shift() && !neg_factor(a) && self.force_suffix == 0 && self.choice(3) == 0;
+                let bare_b = is_int_lit(b) && !is_int_lit(a) && !logical && !neg_factor(b) && self.force_suffix == 0 && self.choice(3) == 0;
+                let sa = if bare_a { self.bare_lit(a) } else { self.bin_operand(a, *op, true) };
                 self.emit(op.sym());
-                let sb = self.bin_operand(b, *op, false);
+                let sb = if bare_b { self.bare_lit(b) } else { self.bin_operand(b, *op, false) };
                 (sa.0, sb.1)
             }
             ExprKind::Cast(x) => {
@@ -701,14 +718,29 @@ pub enum Layout {
 
 /// Print a whole program; assigns spans to all nodes. Returns the token list.
 pub fn print_program(p: &Program, style: u64) -> Vec<String> {
-    print_program_inference(p, style, 0, 0)
+    // a quarter of the let annotations is dropped (the literals inside such an initializer keep their
+    // suffix - generator mask of known finding KF-C05-1 - so the type of the binding is still determined)
+    print_program_inference(p, style, 0, 25)
+}
+
+/// As `print_program`, but every literal keeps its type suffix (for rule-breaking mutants: an
+/// operand of another type must not be rescued by inference).
+pub fn print_program_suffixed(p: &Program, style: u64) -> Vec<String> {
+    print_program_cfg(p, style, 0, 0, true)
 }
 
 /// As `print_program`, dropping some literal suffixes / let annotations (C05).
 pub fn print_program_inference(p: &Program, style: u64, drop_suffix_pct: u64, drop_annot_pct: u64) -> Vec<String> {
+    print_program_cfg(p, style, drop_suffix_pct, drop_annot_pct, false)
+}
+
+fn print_program_cfg(p: &Program, style: u64, drop_suffix_pct: u64, drop_annot_pct: u64, all_suffixed: bool) -> Vec<String> {
     let mut pr = Printer::new(&p.defs, &p.fns, style);
     pr.drop_suffix_pct = drop_suffix_pct;
     pr.drop_annot_pct = drop_annot_pct;
+    if all_suffixed {
+        pr.force_suffix = 1;
+    }
     let main_first = style & 1 == 1;
     if main_first {
         pr.fn_def(p.main());
